@@ -81,6 +81,7 @@ inline std::istream& operator>>(std::istream &in, type &c)
 {
     std::string val;
     in >> val;
+    amgcl::detail::reject_trailing_text(in, val);
 
     if (val == "ruge_stuben")
         c = ruge_stuben;
